@@ -187,21 +187,21 @@ PROPS["C09"] = dict(
     explanation="(a) real Dataset.Search with its worker goroutines and collector over harness pb.SearchClient implementations: 1-2 partitions on 2 nodes with every replica choice (and 3 partitions on 3 nodes, one worker each), 0-2 items per partition with symbolic scores, per-node failure at open or mid-stream, k in 0..2; (b) end to end: the remote nodes are real Datasets with real local partitions and indexes, the clients call their real SearchPartitions; vectors and query symbolic; the answer must be the k best of the whole dataset under the true distances, no id twice although replicated partitions hold the same items, error when the asked node does not know a partition",
     runs={
         "quick": [
-            dict(pkg="./storage", entry="VerifC09", bounds="maxp=2", reach=["searched", "end"]),
-            dict(pkg="./storage", entry="VerifC09", bounds="minp=3,maxp=3,nodes=3,spread=1,items=2,mink=2,maxk=2,failmodes=1", reach=["searched", "end"]),
-            dict(pkg="./storage", entry="VerifC09Cluster", bounds="maxp=2,items=1,maxk=2", reach=["searched", "end"]),
-            dict(pkg="./storage", entry="VerifC09Cluster", bounds="maxp=1,items=2,maxk=3", reach=["searched", "end"]),
+            dict(pkg="./storage", entry="VerifC09", bounds="maxp=2,race=1", reach=["searched", "end"]),
+            dict(pkg="./storage", entry="VerifC09", bounds="minp=3,maxp=3,nodes=3,spread=1,items=2,mink=2,maxk=2,failmodes=1,race=1", reach=["searched", "end"]),
+            dict(pkg="./storage", entry="VerifC09Cluster", bounds="maxp=2,items=1,maxk=2,race=1", reach=["searched", "end"]),
+            dict(pkg="./storage", entry="VerifC09Cluster", bounds="maxp=1,items=2,maxk=3,race=1", reach=["searched", "end"]),
         ],
         "thorough": [
-            dict(pkg="./storage", entry="VerifC09", bounds="maxp=2,preempt=1", reach=["searched", "end"]),
-            dict(pkg="./storage", entry="VerifC09", bounds="maxp=3,items=1,maxk=2,failmodes=2", reach=["searched", "end"]),
-            dict(pkg="./storage", entry="VerifC09", bounds="minp=3,maxp=3,nodes=3,spread=1,items=2,maxk=2,failmodes=1", max_seconds=3000, reach=["searched", "end"]),
-            dict(pkg="./storage", entry="VerifC09Cluster", bounds="maxp=2,items=2,maxk=2,stale=0", max_seconds=3000, reach=["searched", "end"]),
-            dict(pkg="./storage", entry="VerifC09Cluster", bounds="maxp=2,items=2,maxk=3", max_seconds=3000, reach=["searched", "end"]),
+            dict(pkg="./storage", entry="VerifC09", bounds="maxp=2,preempt=1,race=1", reach=["searched", "end"]),
+            dict(pkg="./storage", entry="VerifC09", bounds="maxp=3,items=1,maxk=2,failmodes=2,race=1", reach=["searched", "end"]),
+            dict(pkg="./storage", entry="VerifC09", bounds="minp=3,maxp=3,nodes=3,spread=1,items=2,maxk=2,failmodes=1,race=1", max_seconds=3000, reach=["searched", "end"]),
+            dict(pkg="./storage", entry="VerifC09Cluster", bounds="maxp=2,items=2,maxk=2,stale=0,race=1", max_seconds=3000, reach=["searched", "end"]),
+            dict(pkg="./storage", entry="VerifC09Cluster", bounds="maxp=2,items=2,maxk=3,race=1", max_seconds=3000, reach=["searched", "end"]),
         ],
     },
     outside="more than 3 partitions / 2 remote nodes; preemption between synchronisation operations (interleavings are explored at channel/lock/spawn granularity: blocking switches plus the stated number of voluntary preemptions); timeouts; the gRPC layer (the service handlers between client stub and Dataset.SearchPartitions only convert types)",
-    assumptions=COMMON_ASSUME + ["remote search services are harness implementations of pb.SearchClient / pb.Search_SearchPartitionsClient",
+    assumptions=COMMON_ASSUME + ["data races: vector-clock happens-before detection (verifrt.RaceDetect) on every explored schedule; the harness' own recording objects are guarded by verifrt.HarnessLock","remote search services are harness implementations of pb.SearchClient / pb.Search_SearchPartitionsClient",
                                  "goroutines are interleaved at synchronisation points only (channel ops, select, locks, go, WaitGroup)"],
     replay_attempts=300,
     gomaxprocs1=True,
@@ -212,13 +212,13 @@ PROPS["C17"] = dict(
     technique="bounded symbolic execution of go/ssa (gosmt) with modelled goroutines/channels: placements, failures and schedules are path decisions, remote sizes are 64-bit solver variables (z3)",
     explanation="real Dataset.SizeInfo with its lookup goroutines, closer and collector; local partitions hold real indexes, remote ones are harness pb.DataManagerClient implementations answering by the partition id in the request",
     runs={
-        "quick": [dict(pkg="./storage", entry="VerifC17", bounds="maxp=3,placements=4,gone=0", reach=["sized", "end"]),
-                  dict(pkg="./storage", entry="VerifC17", bounds="maxp=2,placements=4,gone=1", reach=["sized", "end"])],
-        "thorough": [dict(pkg="./storage", entry="VerifC17", bounds="maxp=3,placements=4,preempt=2,gone=0", reach=["sized", "end"]),
-                     dict(pkg="./storage", entry="VerifC17", bounds="maxp=3,placements=4,preempt=1,gone=1", reach=["sized", "end"])],
+        "quick": [dict(pkg="./storage", entry="VerifC17", bounds="maxp=3,placements=4,gone=0,race=1", reach=["sized", "end"]),
+                  dict(pkg="./storage", entry="VerifC17", bounds="maxp=2,placements=4,gone=1,race=1", reach=["sized", "end"])],
+        "thorough": [dict(pkg="./storage", entry="VerifC17", bounds="maxp=3,placements=4,preempt=2,gone=0,race=1", reach=["sized", "end"]),
+                     dict(pkg="./storage", entry="VerifC17", bounds="maxp=3,placements=4,preempt=1,gone=1,race=1", reach=["sized", "end"])],
     },
     outside="more than 3 partitions / 2 remote nodes (2 partitions in the quick run with departed nodes); caller-context cancellation; interleavings finer than synchronisation points",
-    assumptions=COMMON_ASSUME + ["remote data-manager services are harness implementations of pb.DataManagerClient",
+    assumptions=COMMON_ASSUME + ["data races: vector-clock happens-before detection (verifrt.RaceDetect) on every explored schedule; the harness' own recording objects are guarded by verifrt.HarnessLock","remote data-manager services are harness implementations of pb.DataManagerClient",
                                  "goroutines are interleaved at synchronisation points only; the read of the captured loop variable is exposed because goroutine start is such a point"],
     replay_attempts=200,
     gomaxprocs1=True,
@@ -230,20 +230,20 @@ PROPS["C11"] = dict(
     explanation="real partition.insert/update/remove/batch* -> proposeAndWaitForCommit over a RaftGroup wrapping a harness etcdRaft.Node; an apply goroutine runs the real partition.process at any later scheduling point or never; Dataset.Insert/Update/Remove/Batch* with local and remote owners",
     runs={
         "quick": [
-            dict(pkg="./storage", entry="VerifC11Local", bounds="maxcallers=2,preempt=1", reach=["callers-returned", "end2"]),
-            dict(pkg="./storage", entry="VerifC11Remote", bounds="", reach=["remote-end"]),
-            dict(pkg="./storage", entry="VerifC11Batch", bounds="preempt=1", reach=["batch-end"]),
-            dict(pkg="./storage", entry="VerifC11TwoNodes", bounds="preempt=1", reach=["two-nodes-returned"]),
+            dict(pkg="./storage", entry="VerifC11Local", bounds="maxcallers=2,preempt=1,race=1", reach=["callers-returned", "end2"]),
+            dict(pkg="./storage", entry="VerifC11Remote", bounds="race=1", reach=["remote-end"]),
+            dict(pkg="./storage", entry="VerifC11Batch", bounds="preempt=1,race=1", reach=["batch-end"]),
+            dict(pkg="./storage", entry="VerifC11TwoNodes", bounds="preempt=1,race=1", reach=["two-nodes-returned"]),
         ],
         "thorough": [
-            dict(pkg="./storage", entry="VerifC11Local", bounds="maxcallers=2,preempt=2", reach=["callers-returned", "end2"]),
-            dict(pkg="./storage", entry="VerifC11Remote", bounds="", reach=["remote-end"]),
-            dict(pkg="./storage", entry="VerifC11Batch", bounds="preempt=2", reach=["batch-end"]),
-            dict(pkg="./storage", entry="VerifC11TwoNodes", bounds="preempt=2", reach=["two-nodes-returned"]),
+            dict(pkg="./storage", entry="VerifC11Local", bounds="maxcallers=2,preempt=2,race=1", reach=["callers-returned", "end2"]),
+            dict(pkg="./storage", entry="VerifC11Remote", bounds="race=1", reach=["remote-end"]),
+            dict(pkg="./storage", entry="VerifC11Batch", bounds="preempt=2,race=1", reach=["batch-end"]),
+            dict(pkg="./storage", entry="VerifC11TwoNodes", bounds="preempt=2,race=1", reach=["two-nodes-returned"]),
         ],
     },
     outside="more than 2 concurrent callers; real raft (Propose is a harness stub that feeds an apply goroutine); the proposal timeout fires only when every goroutine is blocked (computation is fast relative to the 5 s timeout)",
-    assumptions=COMMON_ASSUME + ["etcdRaft.Node is a harness implementation; RaftGroup is built by an overlay-only constructor (storage/raft/zz_verif_export.go)",
+    assumptions=COMMON_ASSUME + ["data races: vector-clock happens-before detection (verifrt.RaceDetect) on every explored schedule; the harness' own recording objects are guarded by verifrt.HarnessLock","etcdRaft.Node is a harness implementation; RaftGroup is built by an overlay-only constructor (storage/raft/zz_verif_export.go)",
                                  "Hnsw.RandomLevel draws from the stubbed math/rand (constant)"],
     replay_attempts=300,
     gomaxprocs1=True,
@@ -254,13 +254,13 @@ PROPS["C18"] = dict(
     technique="bounded symbolic execution of go/ssa (gosmt) with modelled goroutines, channels, select, RWMutex (writer preference) and timers: schedules and select choices are path decisions; deadlock = watchdog timer that can only fire when every goroutine is blocked (no solver variables: verdict by exhaustive path enumeration)",
     explanation="real Allocator.run/watch/unwatch/addNodeToPartitions/removeNodeFromPartitions and cluster.Conn.AddNode/RemoveNode/NodeChangesNotifications driven by a catalogue goroutine and a membership goroutine; afterwards one more catalogue change must go through",
     runs={
-        "quick": [dict(pkg="./storage", entry="VerifC18", bounds="preempt=1", reach=["drivers-returned", "end"]),
-                  dict(pkg="./storage", entry="VerifC18", bounds="preempt=1,replicaless=1", reach=["drivers-returned", "end"])],
-        "thorough": [dict(pkg="./storage", entry="VerifC18", bounds="preempt=3", reach=["drivers-returned", "end"]),
-                     dict(pkg="./storage", entry="VerifC18", bounds="preempt=2,replicaless=1", reach=["drivers-returned", "end"])],
+        "quick": [dict(pkg="./storage", entry="VerifC18", bounds="preempt=1,race=1", reach=["drivers-returned", "end"]),
+                  dict(pkg="./storage", entry="VerifC18", bounds="preempt=1,replicaless=1,race=1", reach=["drivers-returned", "end"])],
+        "thorough": [dict(pkg="./storage", entry="VerifC18", bounds="preempt=3,race=1", reach=["drivers-returned", "end"]),
+                     dict(pkg="./storage", entry="VerifC18", bounds="preempt=2,replicaless=1,race=1", reach=["drivers-returned", "end"])],
     },
     outside="partitions assigned to the local node (loadRaft/unloadRaft/proposeAddNode/proposeRemoveNode are not exercised: the watched partitions live elsewhere), i.e. the interaction of the allocator with the catalogue's own raft proposals; more than 2 membership and 3 catalogue events; more than 10 queued notifications",
-    assumptions=COMMON_ASSUME + ["sync.RWMutex is modelled with Go's writer preference (a pending Lock blocks new RLocks)"],
+    assumptions=COMMON_ASSUME + ["data races: vector-clock happens-before detection (verifrt.RaceDetect) on every explored schedule; the harness' own recording objects are guarded by verifrt.HarnessLock","sync.RWMutex is modelled with Go's writer preference (a pending Lock blocks new RLocks)"],
     replay_attempts=200,
     gomaxprocs1=True,
 )
@@ -371,21 +371,34 @@ PROPS["C03"] = dict(
 
 PROPS["C05"] = dict(
     level="model_checking",
-    technique="bounded symbolic execution of go/ssa (gosmt): the real ready loop under every Ready shape in the bound (messages of five types to reachable / unreachable / failing peers, leader and follower states), and the real Server.setup / partition loading executed twice on one data directory to observe StartNode vs RestartNode; all choices are path decisions (no solver variables)",
+    technique="bounded symbolic execution of go/ssa (gosmt): the real ready loop under every Ready shape in the bound (messages of five types to reachable / unreachable / failing peers, leader and follower states), a 3-replica group of real RaftGroups around the REAL etcd/raft (StartNode/RestartNode/node.run interpreted) over real badgerWALs behind a harness network whose message faults, partition, crash points and restarts are path decisions, and the real Server.setup / partition loading executed twice on one data directory to observe StartNode vs RestartNode; all choices are path decisions (no solver variables)",
     explanation="reduced claim (DESIGN.md section 5 C05): a non-leader sends no message of a Ready before that Ready was saved (votes / append acknowledgements never leave before the state they attest is durable); every membership entry reaches ApplyConfChange once, in order, and only the zero group feeds the address book; undeliverable messages and snapshot outcomes are reported back to raft; Advance comes last; a group whose store holds durable state is restarted, not bootstrapped again. Agreement of applied entries across replicas under loss/duplication/partitions rests on etcd/raft given these obligations and is not decided",
     runs={
         "quick": [
             dict(pkg="./storage/raft", entry="VerifC03", bounds="readys=1,maxcommitted=1,maxentries=1,snapshots=0,storedsnap=0,zerogroup=1", reach=["readys-handled", "end"]),
             dict(pkg=".", entry="VerifC05Boot", bounds="", no_native=True, reach=["restarted", "boot-end"]),
+            # three replicas with the REAL etcd/raft, real ready loops and real badgerWAL behind a faulty network
+            dict(pkg="./storage/raft", entry="VerifC05Raft", bounds="nodes=3,faults=1,proposals=2", unwind=4000, no_native=True, reach=["phase1", "end"]),
+            dict(pkg="./storage/raft", entry="VerifC05Raft", bounds="nodes=3,faults=0,crashes=1,partitions=1,proposals=3,rounds=70,maxflush=12", unwind=4000, no_native=True, reach=["phase1", "restarted", "end"]),
+            dict(pkg="./storage/raft", entry="VerifC05Raft", bounds="nodes=3,faults=0,partitions=1,restarts=1,proposals=3,rounds=70,compact=1", unwind=4000, no_native=True, reach=["phase1", "restarted", "snapshot-restored", "end"]),
+            dict(pkg="./storage/raft", entry="VerifC05Raft", bounds="nodes=3,faults=0,crashes=1,proposals=2,compact=1,maxflush=10", unwind=4000, no_native=True, reach=["phase1", "restarted", "end"]),
         ],
         "thorough": [
+            dict(pkg="./storage/raft", entry="VerifC05Raft", bounds="nodes=3,faults=2,proposals=2", unwind=4000, no_native=True, max_seconds=5400, reach=["phase1", "end"]),
+            dict(pkg="./storage/raft", entry="VerifC05Raft", bounds="nodes=3,faults=1,partitions=1,restarts=1,proposals=3,rounds=70", unwind=4000, no_native=True, max_seconds=5400, reach=["phase1", "restarted", "end"]),
+            dict(pkg="./storage/raft", entry="VerifC05Raft", bounds="nodes=3,faults=1,crashes=1,partitions=1,proposals=3,rounds=70,maxflush=12", unwind=4000, no_native=True, max_seconds=5400, reach=["phase1", "restarted", "end"]),
+            dict(pkg="./storage/raft", entry="VerifC05Raft", bounds="nodes=3,faults=1,proposals=2,compact=1", unwind=4000, no_native=True, reach=["phase1", "end"]),
+            dict(pkg="./storage/raft", entry="VerifC05Raft", bounds="nodes=3,faults=0,crashes=1,partitions=1,restarts=1,proposals=3,rounds=70,compact=1,maxflush=14", unwind=4000, no_native=True, max_seconds=5400, reach=["phase1", "restarted", "end"]),
             dict(pkg="./storage/raft", entry="VerifC03", bounds="readys=1,maxcommitted=1,maxentries=1,msgtypes=5", reach=["readys-handled", "end"]),
             dict(pkg="./storage/raft", entry="VerifC03", bounds="readys=2,maxmessages=1,msgtypes=3,destinations=2,maxcommitted=1,maxentries=0,snapshots=0,zerogroup=0,storedsnap=0", max_seconds=3000, reach=["readys-handled", "end"]),
             dict(pkg=".", entry="VerifC05Boot", bounds="", no_native=True, reach=["restarted", "boot-end"]),
         ],
     },
-    outside="multi-replica behaviour under message loss, delay, duplication, reordering, partitions and crash-restart (consensus safety and convergence are etcd/raft's); the leader path is allowed to send before saving (raft's contract)",
-    assumptions=GLUE_ASSUME,
+    outside="more than 3 replicas; more than 1 message fault (2 thorough), 1 partition, 1 crash or restart per history; fault positions other than the decision points of the harness (partition start: first leader and after each proposal; heal: every 6 rounds; crash: durable-write boundaries of one replica's store); membership changes during faults; goroutine interleavings other than the deterministic schedule (SchedDeterministic) between harness-driven ticks; election timeouts are a fixed sequence of draws; the leader path is allowed to send before saving (raft's contract)",
+    assumptions=GLUE_ASSUME + [
+        "VerifC05Raft: etcd/raft is NOT stubbed (its real SSA is interpreted); the network is a harness pb.RaftTransportClient placed in RaftTransport.nodeClients; Badger is the API-level model, one database per replica; a crash = the goroutine flushing a WAL batch never returns and the instance is abandoned; time = harness-driven Tick() of every live replica per round, then all goroutines run until blocked; raft's randomized election timeout is a fixed sequence of draws (hook raft-rand)",
+        "VerifC05Raft state machine: the list of applied payloads with snapshot = serialised list; durability of what a message attests is read through a fresh badgerWAL handle on the sender's database at the instant the message leaves",
+    ],
     no_native_replay=True,
 )
 
